@@ -118,11 +118,19 @@ func (c c18Cfg) deps() []c18Dep {
 func c18GenCfg(t *rapid.T, p []string) c18Cfg {
 	n := rapid.IntRange(1, 3).Draw(t, "hops")
 	names := [][]string{{"main"}, {"link", "main"}, {"link", "link2", "main"}}[n-1]
+	through := n == 3 && rapid.IntRange(0, 3).Draw(t, "throughMain") == 0
+	if through {
+		// the path passes through the main dataset before its last hop: dep -> main -> link -> main
+		names = []string{"main", "link", "main"}
+	}
 	c := c18Cfg{Batch: rapid.IntRange(1, 5).Draw(t, "batch")}
 	for i, ds := range names {
 		c.Hops = append(c.Hops, c18Hop{DS: ds, Pred: fmt.Sprintf("%s:j%d", p[i%2], i), Inverse: rapid.Bool().Draw(t, "inverse")})
 	}
 	c.Via = rapid.SampledFrom([]string{"json", "json", "track_queries"}).Draw(t, "via")
+	if through {
+		c.Via = "json"
+	}
 	c.URIPred = rapid.IntRange(0, 3).Draw(t, "uriPred") == 0
 	if n == 1 && c.Via == "json" && rapid.IntRange(0, 2).Draw(t, "mirror") == 0 {
 		c.Mirror = true
@@ -710,6 +718,9 @@ func (c *c18M) classes() []string {
 	c.cls[fmt.Sprintf("hops:%d", len(c.cfg.Hops))] = true
 	c.cls["dirs:"+dirs] = true
 	c.cls["via:"+c.cfg.Via] = true
+	if len(c.cfg.Hops) == 3 && c.cfg.Hops[0].DS == "main" {
+		c.cls["path-through-the-main-dataset"] = true
+	}
 	if c.cfg.Mirror {
 		c.cls["mirrored-dependency"] = true
 	}
@@ -746,8 +757,13 @@ func TestVerif_C18(t *testing.T) {
 					failAt = 0
 				}
 				if rapid.IntRange(0, 3).Draw(t, "midWrite") == 0 {
-					path := cfg.path()
-					ds := rapid.SampledFrom(path[:len(path)-1]).Draw(t, "midDS") // never the main dataset
+					var cand []string
+					for _, d := range cfg.path() {
+						if d != "main" { // never the main dataset
+							cand = append(cand, d)
+						}
+					}
+					ds := rapid.SampledFrom(cand).Draw(t, "midDS")
 					op := c18Op{K: "write", DS: ds}
 					for i := rapid.IntRange(1, 2).Draw(t, "midN"); i > 0; i-- {
 						op.Ents = append(op.Ents, c18GenEnt(t, h.P, cfg, ds))
